@@ -217,9 +217,19 @@ def withFP (fp : Bool) (b : Bytes) : Bytes :=
     t ++ putU16 Stun.fingerprint ++ putU16 4 ++ putU32 (fingerprintOf t)
   else b
 
-/-- `QXmppStunMessage::encode(key, addFingerprint)` -/
-def encode (H : Bytes → Bytes) (m : Msg) (key : Bytes) (fp : Bool) : Bytes :=
+/-- the bytes `QXmppStunMessage::encode(key, addFingerprint)` assembles -/
+def encodeRaw (H : Bytes → Bytes) (m : Msg) (key : Bytes) (fp : Bool) : Bytes :=
   withFP fp (withMI H key (plain m))
+
+/-- `QXmppStunMessage::encode(key, addFingerprint)`: since /repo commit e55f2fd it refuses (empty result and a warning) a
+message whose attributes do not fit the 16-bit length field instead of emitting one with wrapped lengths -/
+def encode (H : Bytes → Bytes) (m : Msg) (key : Bytes) (fp : Bool) : Bytes :=
+  let b := encodeRaw H m key fp
+  if b.length - Stun.headerSize > 0xffff then [] else b
+
+/-- `setReservationToken`: exactly 8 bytes — truncated, or padded with zero bytes (`leftJustified(8, 0, true)`, /repo
+commit e877112; `resize(8)` left the new bytes uninitialised before) -/
+def setReservationToken (tok : Bytes) : Bytes := (tok ++ zeros (8 - tok.length)).take 8
 
 /-! ## QDataStream reads -/
 
@@ -522,11 +532,12 @@ instance {α : Type} (o : Option α) (p : α → Prop) [∀ v, Decidable (p v)] 
 
 * `type`, `cookie`, `changeRequest`, `priority`, `channelNumber`, `lifetime`, `requestedTransport`: **cannot be violated** —
   they only say that the model's `Nat` is in the range of the C++ type (`quint16`, `quint32`, `quint8`).
-* `reservationToken` (8 bytes): **cannot be violated** through `setReservationToken` (it resizes to 8) — but for a
-  shorter argument the missing bytes are uninitialised memory: finding `C14:reservation-token-uninitialised`.
-* `size` (attributes below 65536 - 32 bytes): **can be violated** with the setters (`setData` takes any byte array);
-  the lengths wrap and the packet does not decode: finding `C14:oversized-not-decodable`, theorem
-  `C14_defect_oversized_not_decodable`.  Nothing smaller is excluded: strings longer than RFC 5389 allows (USERNAME
+* `reservationToken` (8 bytes): **cannot be violated** through `setReservationToken` (model: `setReservationToken`, it
+  truncates or zero-pads to 8; before /repo commit e877112 the padding was uninitialised memory).
+* `size` (in `WFMsg`: attributes below 65536 - 32 bytes): **can be violated** with the setters (`setData` takes any byte
+  array) — `encode` then refuses (empty result; before /repo commit e55f2fd the lengths wrapped and the packet did not
+  decode, `C14:oversized-not-decodable`).  The round trip is proved for *every message `encode` accepts*
+  (`stun_decode_encode_accepted`), `size` is only the convenient sufficient condition.  Nothing smaller is excluded: strings longer than RFC 5389 allows (USERNAME
   513, REALM/NONCE/SOFTWARE 763 bytes) are inside `WFMsg` and round-trip.
 * `id` (12 bytes): `setId` has `Q_ASSERT(id.size() == STUN_ID_SIZE)`; violating it is a contract violation the library
   documents (in a release build the header then is not 20 bytes long and nothing decodes).
@@ -541,7 +552,7 @@ instance {α : Type} (o : Option α) (p : α → Prop) [∀ v, Decidable (p v)] 
   the error code to two bytes, ICE attributes written unpadded and rejected by `decode`), but no round trip is claimed or
   expected for them.
 Nothing is demanded of the strings here: what happens to them is described by `view`. -/
-structure WFMsg (m : Msg) : Prop where
+structure WFFields (m : Msg) : Prop where
   type : m.type < 65536
   cookie : m.cookie < 4294967296
   id : m.id.length = 12
@@ -563,6 +574,10 @@ structure WFMsg (m : Msg) : Prop where
   reservationToken : optAll m.reservationToken (·.length = 8)
   iceControlling : m.iceControlling = [] ∨ m.iceControlling.length = 8
   iceControlled : m.iceControlled = [] ∨ (m.iceControlled.length = 8 ∧ m.iceControlling = [])
+
+/-- `WFFields` plus: the attributes stay 32 bytes below the 16-bit limit, so that `encode` accepts the message with any
+key and with fingerprint -/
+structure WFMsg (m : Msg) : Prop extends WFFields m where
   size : (body m).length + 32 < 65536
 
 /-- What a message looks like after `decode (encode m)`: string attributes went through
